@@ -145,6 +145,8 @@ func buildPool(root string, seed uint64, corrupt, churn, large int) error {
 		p.inputs = append(p.inputs, input{text: txt, origin: "corrupt:" + src.origin, entry: src.entry,
 			paths: [2]uint8{src.paths[0], uint8(rng.intn(3))}, family: src.family, class: clsCorrupt})
 	}
+	// typo sweep (typos.go): near-misses of the leading keywords; substitutions in big pools only
+	p.inputs = append(p.inputs, typoSweep(p.inputs, corpus, corrupt >= 1000)...)
 	// siblings: same length, same paths as their source, different line structure or one
 	// letter changed (what a cache with a weak key confuses)
 	for i := 0; i < corrupt/2; i++ {
@@ -367,7 +369,24 @@ func corruptText(r *rng, s string, inputs []input, corpus []int) string {
 	n := 1 + r.intn(3)
 	for ; n > 0; n-- {
 		i := r.intn(len(fields))
-		switch r.intn(7) {
+		switch r.intn(10) {
+		case 7, 8, 9: // a typo inside a word: transpose, drop, double or change one letter
+			w := []byte(fields[i])
+			if len(w) < 2 {
+				continue
+			}
+			j := r.intn(len(w) - 1)
+			switch r.intn(4) {
+			case 0:
+				w[j], w[j+1] = w[j+1], w[j]
+			case 1:
+				w = append(w[:j:j], w[j+1:]...)
+			case 2:
+				w = append(w[:j+1:j+1], w[j:]...)
+			default:
+				w[j] = "ETAOINSRHLDCUMFPGWYBVKXJQZ"[r.intn(26)]
+			}
+			fields[i] = string(w)
 		case 0: // delete
 			fields = append(fields[:i:i], fields[i+1:]...)
 			if len(fields) == 0 {
